@@ -208,3 +208,22 @@ TRUSTED_X86 = [
     "instruction models installed with #[kani::stub] (kani/common/models.rs): PSHUFB (_mm_shuffle_epi8, _mm256_shuffle_epi8), PACKUSWB (_mm_packus_epi16), PADDD/PADDQ (_mm_add_epi32/64, _mm256_add_epi32: Kani wrongly flags simd_add as overflowing)",
     "all other x86 intrinsics are executed from stdarch's portable simd_* definitions",
 ]
+
+
+# ---------------------------------------------------------------------------------------------
+# quick-tier budget (the quick command of every property must finish well inside 15 minutes on an idle
+# 16-core machine).  Harnesses matching QUICK_DENY are run in the thorough tier only; for the
+# properties in QUICK_ONLY only the harnesses of the named unit matching the regex stay in quick.
+QUICK_DENY = [
+    r"groestl_core::c07_leaf_round512$", r"groestl_core::c07_lemma_submix1024$",      # ~15 min each: AES model with a symbolic S-box
+    r"jh_core::wiring::c06_f8_wiring_",                                                 # ~10 min each
+    r"blake_core::c04_lemma_round64$", r"blake_core::wiring::c04_put_block512_l[0-3]$",
+    r"skein_mode::quick::c05_skein1024_(1|32|64|200)_", r"skein_ubi::c05_process_block1024",
+    r"tf1024::c09_encrypt_wiring$", r"tf1024::c10_decrypt_wiring$",                     # the Verus route covers the 1024-bit cores in quick
+]
+QUICK_ONLY = {
+    "C08": {"hashes": r"_(default_reset|clone_p\d+_n\d+|update_p0_n(32|33|64|65|128|129)|update_p(31|32|63|64|127|128)_n1)$"},
+    "C17": {"hashes": r"(blake\d+|groestl\d+|jh\d+|skein(256_32|512_64|1024_128))_(finalize_p(0|31|32|63|64|127|128)|update_p0_n(32|64|128))$"},
+    "C03": {"hashes": r"(c04_(round|diag)|c04_finalize_|c04_put_block256_|c06_ss_l_leaf)", "hashes_generic": r"(c04_(round|diag)|c04_finalize_|c04_put_block256_|c06_ss_l_leaf)"},
+    "C16": {"hashes": r"(c04_finalize_l[04]|c04_put_block256_l4|c07_wiring_tf512|c07_wiring_of512|finalize_p0$)"},
+}
